@@ -12,7 +12,7 @@ from ref import gto
 
 LEVEL = "exploration"
 
-SHELL_KINDS = ["s", "p", "dc", "dp", "fc", "fp", "sp", "sss", "pd", "ddp", "s5", "sp3"]
+SHELL_KINDS = ["s", "p", "dc", "dp", "fc", "fp", "sp", "sss", "pd", "ddp", "s5", "sp3", "ps", "dsp"]
 
 
 def make_shell(name, icenter, j):
@@ -28,6 +28,7 @@ def make_shell(name, icenter, j):
         "s": ([0], ["c"]), "p": ([1], ["c"]), "dc": ([2], ["c"]), "dp": ([2], ["p"]), "fc": ([3], ["c"]), "fp": ([3], ["p"]),
         "sp": ([0, 1], ["c", "c"]), "sss": ([0, 0, 0], ["c", "c", "c"]), "pd": ([1, 2], ["c", "p"]), "ddp": ([2, 2, 1], ["c", "p", "c"]),
         "s5": ([0, 0, 0, 0, 0], ["c"] * 5), "sp3": ([0, 1, 0], ["c", "c", "c"]),
+        "ps": ([1, 0], ["c", "c"]), "dsp": ([2, 0, 1], ["c", "c", "c"]),  # angular momenta not in ascending order
     }
     angmoms, kinds = table[name]
     return Shell(icenter, angmoms, kinds, e, co(len(angmoms)))
@@ -35,7 +36,7 @@ def make_shell(name, icenter, j):
 
 def expected_segmented(seq, keep_sp):
     """Reference: list of (source shell index, contraction index or None for 'kept whole')."""
-    ncon = {"s": 1, "p": 1, "dc": 1, "dp": 1, "fc": 1, "fp": 1, "sp": 2, "sss": 3, "pd": 2, "ddp": 3, "s5": 5, "sp3": 3}
+    ncon = {"s": 1, "p": 1, "dc": 1, "dp": 1, "fc": 1, "fp": 1, "sp": 2, "sss": 3, "pd": 2, "ddp": 3, "s5": 5, "sp3": 3, "ps": 2, "dsp": 3}
     out = []
     for i, name in enumerate(seq):
         if ncon[name] == 1 or (keep_sp and name == "sp"):
@@ -275,7 +276,7 @@ def run(ctx):
     from mc.pool import pmap
 
     maxlen = 4 if ctx.thorough else 3
-    names = SHELL_KINDS if ctx.thorough else SHELL_KINDS[:6] + ["sp", "sss", "ddp", "s5"]
+    names = SHELL_KINDS if ctx.thorough else SHELL_KINDS[:6] + ["sp", "sss", "ddp", "s5", "ps"]
     seqs = [s for n in range(1, maxlen + 1) for s in itertools.product(names, repeat=n)]
     jobs = [(s, k) for s in seqs for k in (False, True)]
     pmap(ctx, basis_worker, jobs, chunk=32)
